@@ -348,3 +348,45 @@ def entry_point_obligations(rep, tier, unit='wiring:entry-points'):
                         _is_run_call(lam.body, named, '_closure'), detail={'src': ast.unparse(p)})
             else:
                 rep.add(unit, f'class {cname} has a parse entry point [{gname}]', 'schematic', False)
+
+
+def operator_node_classes(rep, tier, unit='wiring:Infix/Prefix/Postfix'):
+    """the three operator node classes of the run-time: _fields, __init__ parameters / stores and __repr__ agree (C14, C02)"""
+    from pyvc import runtime
+    src, tree, defs = runtime.runtime(False)
+    want = {'Infix': ['left', 'operator', 'right'], 'Prefix': ['operator', 'right'], 'Postfix': ['left', 'operator']}
+    for cname, fields in want.items():
+        cdef = defs.get(cname)
+        ok = cdef is not None and [ast.unparse(b) for b in cdef.bases] == ['ParsedObject']
+        fs = next((s for s in cdef.body if isinstance(s, ast.Assign) and ast.unparse(s.targets[0]) == '_fields'), None) if cdef else None
+        ok = ok and fs is not None and list(ast.literal_eval(fs.value)) == fields
+        init = defs.get(f'{cname}.__init__')
+        ok = ok and init is not None and astutil.params_of(init) == ['self'] + fields
+        if init is not None:
+            stores = [(s.targets[0].attr, s.value.id) for s in init.body if isinstance(s, ast.Assign) and isinstance(s.targets[0], ast.Attribute) and isinstance(s.value, ast.Name)]
+            ok = ok and stores == [(f, f) for f in fields] and ast.unparse(init.body[0]) == 'ParsedObject.__init__(self)'
+        rp = defs.get(f'{cname}.__repr__')
+        want_repr = "f'" + cname + "(" + ', '.join('{self.%s!r}' % f for f in fields) + ")'"
+        ok = ok and rp is not None and ast.unparse(rp.body[0].value) == ast.unparse(ast.parse(want_repr).body[0].value)
+        rep.add(unit, f'{cname}: _fields = {fields}, __init__ stores them in order, __repr__ rebuilds the constructor call', 'syntactic', bool(ok))
+
+
+def span_recording_obligations(rep, tier, unit='wiring:span-recording'):
+    """every class implementation records its span, whatever its members are (also field-less classes, classes whose members
+    are all omitted, parameterised classes)"""
+    descs = {
+        'plain': 'class A {\n x: "a"\n}',
+        'all-omitted': 'class A {\n pass "break"\n let k: "skip"\n}',
+        'empty': 'class A {\n}',
+        'params': 'class A(p) {\n x: p\n}\nstart = A("q")',
+        'named': 'grammar spanwiring\nclass A {\n x: "a"\n pass "b"\n}',
+    }
+    for name, desc in descs.items():
+        src, tree = _module_tree(desc)
+        fn = next(n for n in tree.body if isinstance(n, ast.FunctionDef) and n.name == '_try_A')
+        stores = [ast.unparse(n) for n in ast.walk(fn) if isinstance(n, ast.Assign) and ast.unparse(n.targets[0]) == '_result._metadata.position_info']
+        first = fn.body[0]
+        start_saved = isinstance(first, ast.Assign) and ast.unparse(first.value) == '_pos'
+        ok = len(stores) == 1 and start_saved and stores[0].endswith(f'({ast.unparse(first.targets[0])}, _pos)')
+        rep.add(unit, f'_try_A saves the entry position first and stores (entry, _pos) into the new instance [{name}]', 'schematic', ok,
+                detail={'src': ast.unparse(fn)})
